@@ -61,6 +61,15 @@ func (d *Dir) Write(files map[string][]byte) error {
 		return err
 	}
 
+	// Until the new version is live, a failure must not leave it behind: nothing
+	// would ever remove it, and it may hold part of the new files.
+	published := false
+	defer func() {
+		if !published {
+			os.RemoveAll(newDir)
+		}
+	}()
+
 	for file, b := range files {
 		path := filepath.Join(newDir, file)
 		if err := os.WriteFile(path, b, os.ModePerm); err != nil {
@@ -86,8 +95,10 @@ func (d *Dir) Write(files map[string][]byte) error {
 	d.log.Infof("Syslink %s to %s.new", newDir, d.target)
 
 	if err := os.Rename(d.target+".new", d.target); err != nil {
+		os.Remove(d.target + ".new")
 		return err
 	}
+	published = true
 
 	d.log.Infof("Atomic write to %s", d.target)
 
